@@ -797,8 +797,18 @@ fn gen_valid_proof(rng: &mut Rng, depth: usize) -> MProof {
 
 fn corrupt_proof(rng: &mut Rng, p: &mut MProof) -> &'static str {
     let d = p.siblings.len();
-    let choice = rng.below(11);
+    let choice = rng.below(12);
     match choice {
+        11 if d == 0 => {
+            // depth 0: the fold is the identity, so a non-canonical leaf whose root follows it is
+            // rejected by the canonicality clause alone
+            let mut l4 = refm::bytes_to_d4(&p.leaf);
+            let i = rng.usize(4);
+            l4[i] = match l4[i].checked_add(P) { Some(a) if rng.bool() => a, _ => *rng.pick(&[P, P + 1, u64::MAX]) };
+            p.leaf = refm::d4_to_bytes(&l4);
+            p.root = p.leaf;
+            "depth0-noncanonical-leaf=root"
+        }
         0 if d > 0 => {
             let l = rng.usize(d);
             p.siblings[l][rng.usize(3)][rng.usize(32)] ^= 1 << rng.below(8);
